@@ -228,6 +228,23 @@ inductive FTree.TagsOk : FTree → Prop
   | node (f : Frag) (tags : List (List Char)) (kids : List FTree) :
       (∀ t ∈ tags, IdentList t) → (∀ k ∈ kids, FTree.TagsOk k) → FTree.TagsOk (.node f tags kids)
 
+theorem extendFirstClass_mem (vals : List AttrVal) (attrs : List (AttrName × List AttrVal))
+    (a : AttrName × List AttrVal) (h : a ∈ extendFirstClass vals attrs) :
+    a ∈ attrs ∨ ∃ a0 ∈ attrs, a = (a0.1, a0.2 ++ vals) := by
+  induction attrs with
+  | nil => simp [extendFirstClass] at h
+  | cons x xs ih =>
+    simp only [extendFirstClass] at h
+    split at h
+    · rcases List.mem_cons.mp h with rfl | h
+      · exact Or.inr ⟨x, by simp, rfl⟩
+      · exact Or.inl (List.mem_cons_of_mem _ h)
+    · rcases List.mem_cons.mp h with rfl | h
+      · exact Or.inl (by simp)
+      · rcases ih h with h1 | ⟨a0, ha0, rfl⟩
+        · exact Or.inl (List.mem_cons_of_mem _ h1)
+        · exact Or.inr ⟨a0, List.mem_cons_of_mem _ ha0, rfl⟩
+
 theorem addClasses_safe (tags : List (List Char)) (n : Node) (hn : n.Safe)
     (ht : ∀ t ∈ tags, IdentList t) : (addClasses tags n).Safe := by
   cases hn with
@@ -242,14 +259,12 @@ theorem addClasses_safe (tags : List (List Char)) (n : Node) (hn : n.Safe)
     split
     · refine Node.Safe.elem _ _ _ ?_ hk
       intro a ham v hv
-      simp only [List.mem_map] at ham
-      obtain ⟨a0, ha0, rfl⟩ := ham
-      split at hv
+      rcases extendFirstClass_mem _ _ _ ham with h1 | ⟨a0, ha0, rfl⟩
+      · exact ha a h1 v hv
       · simp only [List.mem_append] at hv
         rcases hv with hv | hv
         · exact ha a0 ha0 v hv
         · exact hvals v hv
-      · exact ha a0 ha0 v hv
     · refine Node.Safe.elem _ _ _ ?_ hk
       intro a ham v hv
       simp only [List.mem_append, List.mem_cons, List.mem_nil_iff, or_false] at ham
